@@ -35,16 +35,16 @@ class Rng:
 
 
 POLICIES = ["fifo", "lru", "lfu", "arc", "random", "tlru"]
-RET = ["u64", "String", "Result<u64, u64>", "std::result::Result<String, String>"]
-RET_IS_RESULT = [False, False, True, True]
+RET = ["u64", "String", "Result<u64, u64>", "std::result::Result<String, String>", "rt::Slow"]
+RET_IS_RESULT = [False, False, True, True, False]
 WEIGHTS = [None, ("0.3", 3, 10), ("1.5", 3, 2), ("3.0", 3, 1), ("1", 1, 1)]
 # (attribute text, bytes)
 MEMS = [None, ("100", 100), ('"100"', 100), ('"1KB"', 1024), ("64", 64), ('"130"', 130)]
 
 
 def mk(idx, flavour, policy, limit=None, ttl=None, mem=None, fw=None, ret=0, sig=0, name=None,
-       tags=(), events=(), deps=(), cache_if=False, inval_on=False, gates=0):
-    return dict(gates=gates, idx=idx, flavour=flavour, policy=policy, limit=limit, ttl=ttl, mem=mem, fw=fw, ret=ret, sig=sig,
+       tags=(), events=(), deps=(), cache_if=False, inval_on=False, gates=0, early=False):
+    return dict(gates=gates, early=early, idx=idx, flavour=flavour, policy=policy, limit=limit, ttl=ttl, mem=mem, fw=fw, ret=ret, sig=sig,
                 name=name, tags=list(tags), events=list(events), deps=list(deps), cache_if=cache_if,
                 inval_on=inval_on)
 
@@ -116,6 +116,15 @@ def build():
             ("random", 2, None, None, 0, False, False)]):
         fns.append(mk(len(fns), "a", pol, limit=limit, ttl=ttl, mem=mem, ret=ret, cache_if=ci, inval_on=io,
                       gates=1 + g % 3, tags=("t1",) if g % 2 == 0 else ()))
+    # bodies that leave through an explicit `return` for odd arguments (C03)
+    for fl in ["g", "t", "a"]:
+        fns.append(mk(len(fns), fl, "lru", early=True))
+    # a destructuring pattern as parameter: `(p, q): (u32, u32), c: u32` (C02)
+    for fl in ["g", "a"]:
+        fns.append(mk(len(fns), fl, "fifo", limit=4, sig=5))
+    # values whose Clone can be held by the harness: lookups that overlap in real time (C03/C14/C18)
+    for fl in ["a", "g"]:
+        fns.append(mk(len(fns), fl, "lru", ret=4))
     return fns
 
 
@@ -156,9 +165,10 @@ SIG_PARAMS = {
     2: "&self, k: u32",
     3: "",
     4: "a: u32, b: bool, c: char, d: Option<u32>",
+    5: "(p, q): (u32, u32), c: u32",
 }
-SIG_X = {0: "k", 1: "a", 2: "k", 3: "0u32", 4: "a"}
-BODY = ["body_u64", "body_string", "body_res_u64", "body_res_string"]
+SIG_X = {0: "k", 1: "a", 2: "k", 3: "0u32", 4: "a", 5: "c"}
+BODY = ["body_u64", "body_string", "body_res_u64", "body_res_string", "body_slow"]
 
 
 def emit(fns, out):
@@ -186,6 +196,8 @@ def emit(fns, out):
         body = "rt::%s(%d, %s)" % (BODY[f["ret"]], i, SIG_X[f["sig"]])
         if f["gates"]:
             body = "".join("rt::gate().await; " for _ in range(f["gates"])) + body
+        if f["early"]:
+            body = "if %s %% 2 == 1 { return %s; } %s" % (SIG_X[f["sig"]], body, body)
         fn = "pub %sfn f%d(%s) -> %s { %s }" % ("async " if is_async else "", i, SIG_PARAMS[f["sig"]], ret, body)
         if f["sig"] == 2:
             o.append("impl Recv {\n    %s\n    %s\n}" % (head, fn))
@@ -197,7 +209,7 @@ def emit(fns, out):
     o.append("    match idx {")
     for f in fns:
         i = f["idx"]
-        args = {0: "x", 1: "x, &format!(\"s{}\", x)", 2: "x / 2", 3: "", 4: "x, true, 'c', Some(x)"}[f["sig"]]
+        args = {0: "x", 1: "x, &format!(\"s{}\", x)", 2: "x / 2", 3: "", 4: "x, true, 'c', Some(x)", 5: "(x % 2, 7), x / 2"}[f["sig"]]
         callee = ("recv(x).f%d(%s)" if f["sig"] == 2 else "f%d(%s)") % (i, args)
         if f["flavour"] == "a":
             callee = "rt::block_on(%s)" % callee
@@ -221,7 +233,8 @@ def emit(fns, out):
              1: 'format!("{:?}|{:?}", x, format!("s{}", x).as_str())',
              2: 'format!("{:?}|{:?}", recv(x), x / 2)',
              3: "String::new()",
-             4: 'format!("{:?}|{:?}|{:?}|{:?}", x, true, \'c\', Some(x))'}[f["sig"]]
+             4: 'format!("{:?}|{:?}|{:?}|{:?}", x, true, \'c\', Some(x))',
+             5: 'format!("{:?}|{:?}", (x % 2, 7u32), x / 2)'}[f["sig"]]
         o.append("        %d => %s," % (i, e))
     o.append("        _ => panic!(\"no such function\"),")
     o.append("    }")
